@@ -12,13 +12,17 @@ RULE = ("random BQM (v1/v2, float32/float64, ignore_labels), QM, CQM (zip, store
         "2 KiB (3 KiB for the zip containers); EVERY prefix length 0..len-1 is loaded by the implementation in child processes "
         "(exit by signal = crash, per-prefix 10 s SIGALRM = hang) through from_file(bytes), from_file(file object) or "
         "fileview.load and bucketed {exception, equal, different, crash, hang}; BQM and QM prefixes are also decoded by the Coq "
-        "model and the buckets compared; a case is non-trivial when the file is longer than one header block")
+        "model and the buckets compared; cqm_member cases keep the zip container VALID and cut one member handled by a raw-buffer "
+        "loader (varinfo, objective, a constraint's lhs) at every length: ordinary exception or equal model required, and the Coq "
+        "expression / varinfo decoder must agree on the bucket; a case is non-trivial when the file is longer than one header block")
 TRUSTED = ["model: coq/theories/Model/Codec.v, ChkC10.v", "translators/codec_constants.py -> Gen/Gen_Codec.v",
            "harness/prefix_runner.py + harness/codecgen.py state_of(): the equality used for the 'equal model' bucket",
-           "zip / npz containers are not modelled: their truncation behaviour is observed on the implementation only",
+           "zip / npz containers are not modelled: their truncation behaviour is observed on the implementation only; cqm_member "
+           "cases rebuild a valid zip with Python's zipfile (harness/codecgen.py cut_member)",
            "an out-of-bounds read that neither crashes nor changes the outcome is invisible to the bucket comparison; the memcheck "
-           "corpus case (valgrind) covers the item-aligned cuts of the raw sections"]
+           "corpus cases (valgrind, run in every tier) cover the item-aligned cuts of the QM VTYP section and of the CQM zip members"]
 ASSUMPTIONS = ["truncation is a prefix of the written file (interrupted write or transfer); other corruptions are out of scope",
-               "where np.frombuffer accepts a short but item-aligned payload and the failure only surfaces at the next section "
-               "read, the model fails at once - same bucket for every truncated file"]
+               "QM LINB only: LinearSection.loads_data / add_linear_from_array accept a short but item-aligned payload and the failure "
+               "surfaces at the next section read; the model fails at once - same bucket for every truncated file (all other raw "
+               "loaders raise at the same point as the model since 89f7dc3)"]
 PARTIAL = ['bqm_body_prefix_safe_partial: body only', 'decode_prefix_safe_bqm_partial: whole BQM file v1/v2, JSON text layers as hypotheses (HdrOK / LabelsOK)', 'decode_prefix_safe for QM / expression files: NOT proved as a whole (section_prefix_safe + sequence_prefix_safe are the ingredients); QM is covered by the every-prefix correspondence', 'decode_reads_in_bounds is not a theorem: the model reads through take/firstn only; the implementation violates it (finding oob_vtyp_truncated)']
